@@ -22,7 +22,7 @@ import (
 )
 
 // Backends are the ways a BinaryReader can be given its data.
-var Backends = []string{"mem", "bytesrd", "reader", "readereof", "readall", "seeker", "seekerneg", "readerat", "file", "mmap"}
+var Backends = []string{"mem", "bytesrd", "reader", "readereof", "readall", "seeker", "seekerneg", "readerat", "readerateof", "file", "mmap"}
 
 // chunkReader is a plain io.Reader (no Seek, no ReadAt, no Bytes) delivering at most chunk bytes per call.
 // eofWith: it reports io.EOF together with the last bytes, as io.Reader explicitly allows.
@@ -62,6 +62,25 @@ type onlyReaderAt struct{ r *bytes.Reader }
 
 func (o onlyReaderAt) Read(p []byte) (int, error)              { return o.r.Read(p) }
 func (o onlyReaderAt) ReadAt(p []byte, off int64) (int, error) { return o.r.ReadAt(p, off) }
+
+// eagerEOFReaderAt is a ReaderAt that reports io.EOF together with the bytes when a read ends exactly at the end of the data
+// (io.ReaderAt: "ReadAt may return either err == EOF or err == nil" in that case); bytes.Reader and os.File never do.
+type eagerEOFReaderAt struct{ d []byte }
+
+func (o eagerEOFReaderAt) Read(p []byte) (int, error) { return 0, io.EOF } // never used: the ReaderAt path is taken
+func (o eagerEOFReaderAt) ReadAt(p []byte, off int64) (int, error) {
+	if off < 0 {
+		return 0, fmt.Errorf("negative offset")
+	}
+	if off >= int64(len(o.d)) {
+		return 0, io.EOF
+	}
+	n := copy(p, o.d[off:])
+	if int(off)+n == len(o.d) {
+		return n, io.EOF
+	}
+	return n, nil
+}
 
 // env holds the scratch directory for the file-backed sources.
 type env struct {
@@ -186,6 +205,8 @@ func (m *machine) openReader(backend, order string, data []byte, chunk int) erro
 		r, err = parse.NewBinaryReaderReader(onlyReadSeeker{bytes.NewReader(d)}, -1)
 	case "readerat":
 		r, err = parse.NewBinaryReaderReader(onlyReaderAt{bytes.NewReader(d)}, n)
+	case "readerateof":
+		r, err = parse.NewBinaryReaderReader(eagerEOFReaderAt{d}, n)
 	case "file":
 		var p string
 		if p, err = m.env.fileFor(d); err == nil {
